@@ -10,7 +10,7 @@
                        req, the context of the message exchange (every wait of the caller) and hence
                        the handler's deadline all come from the context given to BeginCall
    WHICH context reaches BeginCall is read off the source on every run: the [origin] column of
-   Gen/GenCtxSites.ctx_sites (go2v/ctxsites.go), folded along the call path by [path_src].
+   Gen/GenCtxFlow.ctxflow_sites (go2v/ctxflow.go), folded along the call path by [path_src].
    Instants and durations are Z nanoseconds as in Model/TTL.v.  No proofs in this file. *)
 From Coq Require Import ZArith List Bool.
 From Verif Require Import Base.Wrap Base.Wire Gen.GenConsts Gen.GenTTL Model.Messages Model.TTL.
